@@ -22,6 +22,7 @@ C16 on the model of the language server (`TgModel/Ide`): which files `collect_so
 -/
 import TgModel.Lemmas.IdeCollect
 import TgModel.Lemmas.IdeInclude
+import TgModel.Lemmas.Ix13NF
 import TgModel.Props.C03
 import TgModel.Props.C13
 
@@ -136,6 +137,46 @@ theorem unresolved_diagnosed_ide (ws : Workspace) (res : IndexResult) (h : Index
           ∈ res.diagnostics.toList := by
   obtain ⟨sf, ctx, h1, h2, _, _, _, _, h7, h8⟩ := index_files ws res h
   exact ⟨sf, ctx, h1, h2, h8, fun f hf n hn hk ht => (h7 f hf n hn hk).2 ht⟩
+
+/-! ### (d) the converse: where an `include file not found` diagnostic comes from
+
+Proved with a message-aware pass over the whole indexer (`Lemmas/Ix13Pass.lean`, `Ix13NF.lean`): every other
+`error` call of the model - including every `checkNext` call site of the bang operators - reports a message
+that is `MsgOK` (at least four characters, not starting with `incl`; checked literal by literal by `msg_ok`). -/
+
+/-- **converse of `unresolved_diagnosed_ide`**: every diagnostic of a successful `Index.index` whose message
+starts with the model's literal prefix is the report of an `include` statement `n` that was executed in an
+indexed file `f` (the root, or a file some include resolves to) and whose target does not resolve; it sits at
+the range of that statement and carries its path -/
+theorem not_found_diagnostic_stems_from_include (ws : Workspace) (res : IndexResult) (h : Index.index ws = .ok res)
+    (d : Diagnostic) (hd : d ∈ res.diagnostics.toList)
+    (hp : "include file not found: ".toList <+: d.message.toList) :
+    ∃ f n, (f = ws.root ∨ IsIncludeTarget ws f) ∧ n.kind = .Include ∧ incTarget ws f n = none ∧
+      d = { location := ⟨f, n.start, n.stop⟩
+            message := "include file not found: " ++ ((Ast.includePath n).map Ast.stringValue).getD "" } :=
+  Ix13.nf_converse ws res h d hd (not_msgOK_of_prefix d.message hp)
+
+/-- the same for every diagnostic whose message merely starts with `incl` (or has fewer than four characters) -/
+theorem not_msgOK_diagnostic_stems_from_include (ws : Workspace) (res : IndexResult) (h : Index.index ws = .ok res)
+    (d : Diagnostic) (hd : d ∈ res.diagnostics.toList) (hm : ¬ MsgOK d.message) :
+    ∃ f n, (f = ws.root ∨ IsIncludeTarget ws f) ∧ n.kind = .Include ∧ incTarget ws f n = none ∧
+      d = { location := ⟨f, n.start, n.stop⟩
+            message := "include file not found: " ++ ((Ast.includePath n).map Ast.stringValue).getD "" } :=
+  Ix13.nf_converse ws res h d hd hm
+
+/-- on a built workspace the file is one of the collected files -/
+theorem not_found_diagnostic_stems_from_include_built {vfs : List (String × String)} {rootPath : String}
+    {includeDir : Option String} {ws : Workspace} (hb : buildWorkspace vfs rootPath includeDir = .ok ws)
+    {res : IndexResult} (h : Index.index ws = .ok res) (d : Diagnostic) (hd : d ∈ res.diagnostics.toList)
+    (hp : "include file not found: ".toList <+: d.message.toList) :
+    ∃ f n, f ∈ ws.fileSet ∧ n.kind = .Include ∧ incTarget ws f n = none ∧
+      d = { location := ⟨f, n.start, n.stop⟩
+            message := "include file not found: " ++ ((Ast.includePath n).map Ast.stringValue).getD "" } := by
+  obtain ⟨f, n, hf, hk, ht, hdd⟩ := not_found_diagnostic_stems_from_include ws res h d hd hp
+  refine ⟨f, n, ?_, hk, ht, hdd⟩
+  rcases hf with rfl | ⟨src, fi, rng, hfile, he⟩
+  · exact ((fileSet_exact hb).2.1 ws.root).2 Workspace.Reach.root
+  · exact ((fileSet_exact hb).2.2 src fi (rng, f) hfile he).2
 
 /-! ### non-vacuity -/
 
